@@ -10,6 +10,105 @@ use std::cell::RefCell;
 use std::io::{BufRead, Read, Seek, SeekFrom, Write};
 use std::panic::{catch_unwind, AssertUnwindSafe};
 
+
+/// CPU watchdog for ONE library call.  The supervisor's per-case CPU limit has to leave room
+/// for whole enumerations (tens of CPU-seconds per case); a single API call on the images
+/// used here needs well under a second, so a limit per call separates "slow machine" from
+/// "loops forever" by a much wider margin and reports a CPU-only loop sooner.  A thread in
+/// the worker compares the main thread's CPU clock with its value at the start of the call
+/// in flight and ends the process with exit code `HANG_EXIT` when the call has used more than
+/// the limit; the supervisor turns that exit code into `hang@process` (the failing single
+/// run is recovered from the worker's scratch file as for an abort).
+pub mod callwatch {
+    use std::sync::atomic::{AtomicU64, Ordering};
+    pub const HANG_EXIT: i32 = 86;
+    /// 0 = no call in flight, otherwise main-thread CPU nanoseconds at the start of the call + 1
+    static SINCE: AtomicU64 = AtomicU64::new(0);
+    static STARTED: AtomicU64 = AtomicU64::new(0);
+    static CLOCK: AtomicU64 = AtomicU64::new(u64::MAX);
+    static MAX_CALL_NS: AtomicU64 = AtomicU64::new(0);
+
+    /// largest CPU time a single (completed) library call has needed in this process
+    pub fn max_call_seconds() -> f64 {
+        MAX_CALL_NS.load(Ordering::Relaxed) as f64 * 1e-9
+    }
+
+    static LIMIT_S: AtomicU64 = AtomicU64::new(90);
+
+    /// CPU-seconds one library call may use: 30 in the quick tier (the largest call there needs
+    /// about 0.4 s), 90 in the thorough tier and in replays (a 457 MB version-4 file is grown
+    /// there); VERIF_CALL_CPU_LIMIT overrides.
+    pub fn limit_s() -> u64 {
+        LIMIT_S.load(Ordering::Relaxed)
+    }
+
+    fn read(clock: libc::clockid_t) -> u64 {
+        let mut ts = libc::timespec { tv_sec: 0, tv_nsec: 0 };
+        unsafe {
+            libc::clock_gettime(clock, &mut ts);
+        }
+        ts.tv_sec as u64 * 1_000_000_000 + ts.tv_nsec as u64
+    }
+
+    /// Call once on the thread that executes the cases.
+    /// Sets the limit without starting the watchdog (the supervisor only reports it).
+    pub fn configure(default_limit_s: u64) {
+        LIMIT_S.store(std::env::var("VERIF_CALL_CPU_LIMIT").ok().and_then(|s| s.parse::<u64>().ok()).unwrap_or(default_limit_s), Ordering::SeqCst);
+    }
+
+    pub fn start(default_limit_s: u64) {
+        if STARTED.swap(1, Ordering::SeqCst) != 0 {
+            return;
+        }
+        configure(default_limit_s);
+        let mut cid: libc::clockid_t = 0;
+        let rc = unsafe { libc::pthread_getcpuclockid(libc::pthread_self(), &mut cid) };
+        if rc != 0 {
+            return;
+        }
+        CLOCK.store(cid as i64 as u64, Ordering::SeqCst);
+        let limit = limit_s() * 1_000_000_000;
+        std::thread::spawn(move || loop {
+            std::thread::sleep(std::time::Duration::from_millis(250));
+            let since = SINCE.load(Ordering::SeqCst);
+            if since == 0 {
+                continue;
+            }
+            let now = read(cid);
+            if now > since - 1 && now - (since - 1) > limit && SINCE.load(Ordering::SeqCst) == since {
+                eprintln!("callwatch: one library call used more than {} CPU-seconds", limit / 1_000_000_000);
+                unsafe { libc::_exit(HANG_EXIT) };
+            }
+        });
+    }
+
+    pub struct InCall(bool);
+
+    /// Marks a library call as in flight until the guard is dropped (nested guards are no-ops).
+    pub fn enter() -> InCall {
+        let c = CLOCK.load(Ordering::Relaxed);
+        if c == u64::MAX || SINCE.load(Ordering::Relaxed) != 0 {
+            return InCall(false);
+        }
+        SINCE.store(read(c as i64 as libc::clockid_t) + 1, Ordering::SeqCst);
+        InCall(true)
+    }
+
+    impl Drop for InCall {
+        fn drop(&mut self) {
+            if self.0 {
+                let since = SINCE.load(Ordering::Relaxed);
+                let c = CLOCK.load(Ordering::Relaxed);
+                let now = read(c as i64 as libc::clockid_t);
+                if since != 0 && now >= since - 1 {
+                    MAX_CALL_NS.fetch_max(now - (since - 1), Ordering::Relaxed);
+                }
+                SINCE.store(0, Ordering::SeqCst);
+            }
+        }
+    }
+}
+
 thread_local! {
     static LAST_PANIC: RefCell<Option<String>> = const { RefCell::new(None) };
 }
@@ -122,6 +221,7 @@ impl Lib {
     pub fn create(disk: SimDisk, version: u16, bufsize: Option<usize>) -> Result<Lib, Res> {
         let d2 = disk.clone();
         clear_panic();
+        let _w = callwatch::enter();
         let r = catch_unwind(AssertUnwindSafe(|| match (version, bufsize) {
             (4, Some(b)) => cfb::OpenOptions::new().max_buffer_size(b).create_with(d2),
             (v, _) => CompoundFile::create_with_version(version_of(v), d2),
@@ -137,6 +237,7 @@ impl Lib {
     pub fn open(disk: SimDisk, strict: bool, bufsize: Option<usize>) -> Result<Lib, Res> {
         let d2 = disk.clone();
         clear_panic();
+        let _w = callwatch::enter();
         let r = catch_unwind(AssertUnwindSafe(|| {
             let mut o = cfb::OpenOptions::new();
             if let Some(b) = bufsize {
@@ -195,6 +296,7 @@ impl Lib {
 
     /// Drop all handles and the CompoundFile without calling flush on the file.
     pub fn close(&mut self) {
+        let _w = callwatch::enter();
         let _ = catch_unwind(AssertUnwindSafe(|| {
             for h in self.handles.iter_mut() {
                 *h = None;
@@ -216,6 +318,7 @@ impl Lib {
     }
 
     pub fn drop_handle(&mut self, h: usize) {
+        let _w = callwatch::enter();
         let _ = catch_unwind(AssertUnwindSafe(|| {
             self.handles[h] = None;
         }));
@@ -226,6 +329,7 @@ impl Lib {
         self.call_no += 1;
         self.disk.begin_call(self.call_no, self.budget());
         clear_panic();
+        let _w = callwatch::enter();
         let r = catch_unwind(AssertUnwindSafe(|| self.exec_inner(op)));
         match r {
             Ok(res) => res,
@@ -468,6 +572,7 @@ impl Lib {
         self.call_no += 1;
         self.disk.begin_call(self.call_no, if self.budget_base == 0 { u64::MAX } else { self.budget().saturating_mul(8) });
         clear_panic();
+        let _w = callwatch::enter();
         let r = catch_unwind(AssertUnwindSafe(|| dump_api(self.cf.as_mut().unwrap(), skip)));
         match r {
             Ok(Ok(d)) => Ok(d),
